@@ -5,6 +5,10 @@ From Coq Require Import ZArith List Arith Lia Bool Permutation Sorted.
 From FF Require Import Model.Tensor Spec.Kron Proofs.TensorIdx Proofs.TensorOrder.
 Import ListNotations.
 
+Section Generic.
+Context {T : Type} {EN : Entry T} {EL : EntryLaws T}.
+Local Notation arr := (garr T).
+
 (* ------------------------------------------------------------------ slices of letter ranges *)
 Lemma skipn_seq i a n : skipn i (seq a n) = seq (a + i) (n - i).
 Proof.
@@ -265,3 +269,4 @@ Proof.
   destruct (Nat.eqb_spec (prodn (lead rank (shp a) ++ concat arr_dims)) (length (dat a))) as [E5|E5]; simpl; [|reflexivity].
   tauto.
 Qed.
+End Generic.
